@@ -392,3 +392,33 @@ def tricky_rename(scn, rng):
     if "start_delays" in scn:
         scn["start_delays"] = {new.get(k, k): v for k, v in scn["start_delays"].items()}
     return scn
+
+
+def permute_names(scn, rng):
+    """the same scenario with the component names PERMUTED among the components of each kind (devices among devices, systems
+    among systems): in which order a set of names is iterated depends on the names (and on the hash seed of the process), so
+    the same topology is met with different iteration orders within one run"""
+    import copy
+    scn = copy.deepcopy(scn)
+    new = {}
+    for kind in ("dev", "sys"):
+        names = [c["name"] for c, _, _ in walk(scn["components"]) if c["kind"] == kind]
+        sh = list(names)
+        rng.shuffle(sh)
+        new.update(dict(zip(names, sh)))
+
+    def ren(comps):
+        for c in comps:
+            c["name"] = new[c["name"]]
+            for q, src in list(c.get("inputs", {}).items()):
+                c["inputs"][q] = [new.get(src[0], src[0]), src[1]]
+            if c["kind"] == "sys":
+                for q, src in list(c.get("expose", {}).items()):
+                    c["expose"][q] = [new.get(src[0], src[0]), src[1]]
+                ren(c["components"])
+    ren(scn["components"])
+    for st in scn.get("stims", []):
+        st["comp"] = new.get(st["comp"], st["comp"])
+    if "start_delays" in scn:
+        scn["start_delays"] = {new.get(k, k): v for k, v in scn["start_delays"].items()}
+    return scn
